@@ -1,3 +1,3 @@
 import Driver.Loop
-/- stub: no executable model for C01 yet -/
-def main : IO UInt32 := CelerVerif.runDriver (fun (s : Unit) _ => (s, "bad-op")) ()
+import CelerVerif.Model.LedgerDriver
+def main : IO UInt32 := CelerVerif.runDriver CelerVerif.Ledger.driverStep {}
